@@ -58,6 +58,9 @@ void harness(void) {
   for (int i = 0; i < 2; i++) { T[i] = (Token){0}; T[i].kind = (KD[idx[i]] == TK_PP_NUM && nondet_bool_()) ? TK_NUM : KD[idx[i]];   /* numbers are TK_NUM once convert_pp_tokens has run, TK_PP_NUM before */ T[i].loc = SP[idx[i]]; T[i].len = (int)strlen(SP[idx[i]]); T[i].at_bol = nondet_bool_(); T[i].has_space = nondet_bool_(); T[i].next = &T[i + 1]; }
   T[2] = (Token){0}; T[2].kind = TK_EOF;
   ASSUME(T[0].at_bol);                         /* the first token of a file begins a line */
+  // macro provenance must not matter to the printer: the tokens may come from the same macro invocation, from
+  // different ones, or from none
+  static Token ORG[2]; T[0].origin = nondet_bool_() ? &ORG[0] : (Token *)0; T[1].origin = nondet_bool_() ? (nondet_bool_() ? &ORG[0] : &ORG[1]) : (Token *)0;
   opt_o = 0; g_n = 0;
   print_tokens(&T[0]);
   REACH("returns");
